@@ -1,6 +1,6 @@
 """Registry: property id -> level, rules, explanation.  MANIFEST.json is generated from it
 (checks/gen_manifest.py) so that the two cannot drift."""
-from .rules import py, c04, c06, c07, v3, c18, numrules, codec, crypto  # noqa: F401
+from .rules import py, c04, c06, c07, v3, c18, numrules, codec, crypto, pol  # noqa: F401
 
 TRUSTED = [
     "rustc nightly 1.97 MIR construction (dev profile, -Zmir-opt-level=0) as a faithful account of the program",
@@ -44,10 +44,13 @@ prop("C19", "other",
      "Python-AST rules: every sender awaits the policer first (sync get/get_many/iterators, async _send through which "
      "every send_* goes), constructor validation raises ValueError for rps<=0 and for a zero interval, wait()/wait_sync() "
      "sleep delta/NS only for a positive delta taken from get_timeout(perf_counter_ns()), _prev is written only in "
-     "get_timeout, and get_timeout's (path condition -> update, return) rows are compared with the reference slot "
-     "arithmetic. Decides the wiring and validation clauses; the slot arithmetic over histories (the rate bound itself) "
-     "is NOT decided: a rewritten arithmetic is reported inconclusive, not as a violation.",
-     [("C19.guard", py.policer_guard), ("C19.core", py.policer_core)])
+     "get_timeout. The slot arithmetic is decided as an inductive invariant in linear integer arithmetic (gsa/rules/pol.py, "
+     "exact simplex of gsa/lin): on every path of get_timeout feasible under the premises (monotonic clock, ts >= previous "
+     "release >= slot) 0 <= delay <= interval, slot' <= release < slot' + interval and slot' >= slot + interval; these "
+     "imply the rate bound by induction over histories. Floor division by the interval is modelled by its defining "
+     "inequalities; an expression outside the linear fragment makes that rule inconclusive, never a violation. "
+     "Assumes the sleep releases exactly at ts + delay.",
+     [("C19.guard", py.policer_guard), ("C19.core", py.policer_core), ("C19.slots", pol.invariant)])
 
 from .rules import c04  # noqa: E402
 
@@ -111,7 +114,7 @@ prop("C13", "other",
      "digest and the session engine id; OpRefresh is an empty GetRequest and flag_report is set exactly for it; both Python "
      "clients defer the user iff no engine id, run refresh -> set_keys(deferred user) -> clear -> refresh and call refresh() "
      "on context entry. Behaviour over multi-step agent histories beyond these premises is NOT decided.",
-     [("C13.adopt", v3.adopt), ("C13.stamp", v3.cred), ("C13.keys", v3.keys), ("C13.probe", v3.probe), ("C13.py", py.refresh_flow)])
+     [("C13.adopt", v3.adopt), ("C13.stamp", v3.cred), ("C13.keys", v3.keys), ("C13.probe", v3.probe), ("C13.py", py.refresh_flow), ("C13.user", only(crypto.key_ffi, "User."))])
 
 prop("C10", "other",
      "Path rules on v3 unwrap_pdu/_recv_inner: delivery of a PDU must be guarded by a test of msg.usm.auth_params against "
@@ -182,7 +185,7 @@ prop("C16", "proof",
      "&tail[hdr.length..] of the same header parse; decode(tail, &hdr) pairs; all seven try_from (3 messages, USM, 3 PDUs) "
      "return Ok only across the empty-remainder edge of their enclosing SEQUENCE.",
      [("C16.extent", codec.extent), ("C16.hdr", codec.hdr_contract), ("C16.rest", codec.rest), ("C16.pair", codec.pair),
-      ("C16.trailing", codec.trailing), ("C16.lists", codec.list_loops), ("C16.fresh", crypto.priv_fresh)])
+      ("C16.trailing", codec.trailing), ("C16.lists", codec.list_loops), ("C16.fresh", crypto.priv_fresh), ("C16.hdrext", codec.hdr_extent), ("C16.decrypt", only(crypto.priv_layout, "decrypt"))])
 
 prop("C02", "other",
      "Necessary conditions only (numerical equality of decoded values with their X.690 denotation is NOT decided): the "
@@ -192,7 +195,7 @@ prop("C02", "other",
      "big-endian folds have the canonical step (acc << 8) | octet over take(h.length) (unknown shapes: inconclusive); "
      "IpAddress octet order; no overflow site in the decoders (shared with C01).",
      [("C02.dispatch", codec.dispatch), ("C02.pair", codec.pair), ("C02.extent", codec.extent), ("C02.width", codec.width), ("C02.hdr", codec.hdr_reject), ("C02.oidtext", codec.oid_print), ("C02.decrypt", only(crypto.priv_layout, "decrypt")), ("C02.textreject", codec.oid_to_text_rejections),
-      ("C02.fold", codec.fold), ("C02.ip", codec.ipaddr), ("C02.sites", codec.hdr_contract)])
+      ("C02.fold", codec.fold), ("C02.ip", codec.ipaddr), ("C02.sites", codec.hdr_contract), ("C02.shiftguard", codec.shift_guards), ("C02.tail", codec.tail_cover)])
 
 prop("C08", "other",
      "Structure and intervals of SnmpOid::try_from(&str): no value-altering call (min/max/clamp/saturating/wrapping/unwrap_or) "
@@ -200,14 +203,14 @@ prop("C08", "other",
      "group of every arm proven within 1..127 (0..127 for one octet) from the engine's cast facts; parse errors propagate, two "
      "arcs mandatory; every panic site of both conversions discharged; OID text enters only through this conversion and a "
      "failure returns before the send. NOT decided: print(parse(s)) = s and the base-128 arithmetic of rewritten encoders.",
-     [("C08.text", codec.oid_text), ("C08.entry", codec.oid_entry), ("C08.sites", numrules.c08_sites), ("C08.print", codec.oid_print), ("C08.reject", codec.oid_text_rejections), ("C08.arcloop", codec.arc_loop_exits), ("C08.textreject", codec.oid_to_text_rejections), ("C08.handlen", crypto.hand_lengths)])
+     [("C08.text", codec.oid_text), ("C08.entry", codec.oid_entry), ("C08.sites", numrules.c08_sites), ("C08.print", codec.oid_print), ("C08.reject", codec.oid_text_rejections), ("C08.arcloop", codec.arc_loop_exits), ("C08.textreject", codec.oid_to_text_rejections), ("C08.handlen", crypto.hand_lengths), ("C08.shiftguard", codec.shift_guards)])
 
 prop("C15", "other",
      "Necessary conditions only (round-trip equality over all i64 / OIDs is NOT decided): no undischarged overflow, negation or "
      "shift site in SnmpInt::push_ber/decode, the OID conversions and push_tag_len (engine `num`); the length-form table of "
      "push_tag_len (short / 0x81 / 0x82 with the octets in order and ensure_size covering them); the fixed encodings (ZERO_BER, "
      "NULL_BER, EMPTY_BER, version constants) are minimal TLVs; PDU tag tables of encoder and decoder agree with RFC 3416.",
-     [("C15.nowrap", numrules.c15_nowrap), ("C15.len", codec.length_forms), ("C15.hdr", codec.hdr_reject), ("C15.pdu", codec.pdu_tags), ("C15.oid", codec.oid_text), ("C15.nested", crypto.nested_lengths), ("C15.mirror", crypto.layout_mirror), ("C15.dec", only(codec.width, "SnmpInt")), ("C15.handlen", crypto.hand_lengths)])
+     [("C15.nowrap", numrules.c15_nowrap), ("C15.len", codec.length_forms), ("C15.hdr", codec.hdr_reject), ("C15.pdu", codec.pdu_tags), ("C15.oid", codec.oid_text), ("C15.nested", crypto.nested_lengths), ("C15.mirror", crypto.layout_mirror), ("C15.dec", only(codec.width, "SnmpInt")), ("C15.handlen", crypto.hand_lengths), ("C15.flags", crypto.msg_flags_decode), ("C15.msgflags", crypto.msg_flags), ("C15.tail", codec.tail_cover)])
 
 from .rules import crypto  # noqa: E402
 
@@ -293,7 +296,7 @@ prop("C11", "other",
      "place equals the range returned (b[..padded_len]) and padded_len is proved in bounds (num); push_pdu passes the session's "
      "scoped PDU, boots and time in this order; the skipped buffer is parsed only after a successful decryption; key localisation "
      "chain (auth digest, session engine id, own key-type bits).",
-     [("C11.fresh", crypto.priv_fresh), ("C11.layout", crypto.priv_layout), ("C11.args", v3.cred), ("C11.keys", v3.keys), ("C11.choice", v3.priv_choice), ("C11.msgflags", crypto.msg_flags), ("C11.pad", numrules.des_padding), ("C11.scoped", only(crypto.key_size_guards, "ScopedPdu")), ("C11.padconst", crypto.pad_constants)])
+     [("C11.fresh", crypto.priv_fresh), ("C11.layout", crypto.priv_layout), ("C11.args", v3.cred), ("C11.keys", v3.keys), ("C11.choice", v3.priv_choice), ("C11.msgflags", crypto.msg_flags), ("C11.pad", numrules.des_padding), ("C11.scoped", only(crypto.key_size_guards, "ScopedPdu")), ("C11.padconst", crypto.pad_constants), ("C11.user", only(crypto.key_ffi, "User."))])
 
 prop("C12", "other",
      "Digest equality with RFC 3414 A.2 is NOT decided. Decided: no undischarged panic site from SnmpV3ClientSocket::new, "
